@@ -132,7 +132,7 @@ PROPS.update({
                "— all eleven handle_* functions incl. the binary-search-and-shift ones and the repaired Reset arm (D3); filter_init for the constructors. Tied to the code by every pass/fail mask x every operation."),
         technique="Lean 4 proof (index-list invariant, per-arm lemmas over a split of the source) + model/implementation correspondence",
         design_ref="DESIGN.md §6 C10"),
-    "C15": dict(adp_prop(["EyeballVerif.Props.C15"],
+    "C15": dict(adp_prop(["EyeballVerif.Props.C15", "EyeballVerif.Props.C15Container"],
         "head_prefix_bound / tail_prefix_bound: for every valid diff, limit and vector, every intermediate replica while replaying the emitted diffs one by one has at most `limit` items (runBounded), "
         "runBounded_prefix connects it to prefixes of the emitted list; c15_initial"),
         claim=("Lean 4 theorems head_prefix_bound / tail_prefix_bound: for every diff valid on the source, every limit and vector, replaying the emitted diffs one at a time never lets the view exceed the limit "
